@@ -487,6 +487,11 @@ def run(prop_id, tier):
           % (prop_id, tier, seed, total.evaluations,
              ", ".join("%s=%d" % kv for kv in sorted(total.sources.items())),
              len(total.nontrivial), len(total.findings), len(excluded), wall))
+    if violations:
+        for sig, msg, path, count in violations:
+            print("  signature=%s (%d cases): %s" % (sig, count, msg))
+            print("VIOLATION property=%s replay=%s" % (prop_id, path))
+        return 1
     # vacuity guard: a generator that stopped producing the interesting class is a harness error
     minfrac = getattr(mod, "MIN_NONTRIVIAL_FRACTION", 0.0)
     if total.evaluations and len(total.nontrivial) < max(2, minfrac * total.evaluations):
@@ -496,11 +501,6 @@ def run(prop_id, tier):
         if total.labels.get(lab, 0) < frac * total.evaluations:
             raise HarnessError("generator health: label %r in %d of %d cases (< %.3f)"
                                % (lab, total.labels.get(lab, 0), total.evaluations, frac))
-    if violations:
-        for sig, msg, path, count in violations:
-            print("  signature=%s (%d cases): %s" % (sig, count, msg))
-            print("VIOLATION property=%s replay=%s" % (prop_id, path))
-        return 1
     return 0
 
 
